@@ -362,11 +362,11 @@ def r17_match_arm_ref_guard(text):
 
 
 def r18_bool_bitand(text):
-    """`A[I] & B[J]` on indexed operands => `{ let l__N = A[I]; let r__N = B[J]; l__N && r__N }` (Verus has no `&` on bool; both
+    """`A[I] & B[J]` (also `A[*I].unwrap() & B[*J].unwrap()`) on indexed operands => `{ let l__N = A[I]; let r__N = B[J]; l__N && r__N }` (Verus has no `&` on bool; both
     operands are still evaluated, so every index check of the original is kept)."""
     n = 0
     while True:
-        m = re.search(r'(\b\w+\[\w+\]) & (\w+\[\w+\])', text)
+        m = re.search(r'(\b\w+\[\*?\w+\](?:\.unwrap\(\))?) & (\w+\[\*?\w+\](?:\.unwrap\(\))?)', text)
         if not m:
             return text, n
         n += 1
@@ -450,6 +450,69 @@ def r23_range_copy(text):
         text = text[:m.start()] + new + text[m.end():]
 
 
+def r24_opaque_iter(text):
+    """`E.wires()` (declared `-> impl Iterator<Item = Wire>`, a chain of flat_map / map / chain closures that Verus cannot type) =>
+    `wires_of(E)`, an external_body function of the template returning the yielded wires as a vector under a TRUSTED contract;
+    `let W = wires_of(E); .. for (I, G) in W.enumerate() {` and `for (I, G) in wires_of(E).enumerate() {` =>
+    `let w__N = <iterator>; for I in 0..w__N.len() { let G = w__N[I];`."""
+    n = u = 0
+    text, k = re.subn(r'\b((?:self\.)?[A-Za-z_][A-Za-z0-9_.]*?)\.wires\(\)', r'wires_of(\1)', text)
+    n += k
+    while True:
+        m = re.search(r'(?m)^(\s*)for \((\w+), (\w+)\) in (\w+|wires_of\([\w.]+\))\.enumerate\(\) \{[ \t]*$', text)
+        if not m:
+            return text, n
+        n += 1
+        u += 1
+        ind, i, g, it = m.groups()
+        w = f'w__{u}'
+        text = text[:m.start()] + f'{ind}let {w} = {it}; for {i} in 0..{w}.len() {{ let {g} = {w}[{i}];' + text[m.end():]
+
+
+def r25_iter_sum(text):
+    """`X.iter().sum()` / `X.iter().sum::<usize>()` => `iter_sum(&X)`: the template defines `iter_sum` as a verified loop of additions
+    (precondition: the sum fits, as Iterator::sum panics on overflow under overflow checks)."""
+    n = 0
+    while True:
+        m = re.search(r'\b((?:self\.)?[A-Za-z_][A-Za-z0-9_]*)\.iter\(\)\.sum(?:::<usize>)?\(\)', text)
+        if not m:
+            return text, n
+        n += 1
+        text = text[:m.start()] + f'iter_sum(&{m.group(1)})' + text[m.end():]
+
+
+def r26_slice_iters(text):
+    """`let X: Vec<_> = X.iter().map(|X| X.iter()).collect();` is dropped: it shadows a slice of vectors by the vector of their
+    slice iterators, which are never advanced and only used through `.len()` and `.as_slice()`; both agree with `Vec::len` /
+    `Vec::as_slice` of the shadowed vectors, so the remaining text means the same with the original binding."""
+    n = 0
+    while True:
+        m = re.search(r'(?m)^(\s*)let (\w+): Vec<_> = \2\.iter\(\)\.map\(\|\2\| \2\.iter\(\)\)\.collect\(\);[ \t]*$', text)
+        if not m:
+            return text, n
+        x = m.group(2)
+        rest = text[m.end():]
+        rt = lex(rest)
+        for k, t in enumerate(rt):
+            if t.kind == 'ident' and t.text == x and not (k > 0 and rt[k - 1].text == '.'):
+                after = ''.join(u.text for u in rt[k + 1:k + 9])
+                if not (after.startswith('.len()') or after.startswith('@') or re.match(r'^\[\w+\]\.(len|as_slice)\(\)', after)):
+                    raise Unsupported('R26: use of the iterator vector other than .len() / [i].len() / [i].as_slice(): ' + after)
+        n += 1
+        text = text[:m.start()] + m.group(1) + text[m.end():]
+
+
+def r27_add_assign_ref(text):
+    """`for V in X.iter() { .. ACC += V; .. }` => `ACC += *V;` (core's `impl AddAssign<&usize> for usize` is `*self += *other`; Verus has
+    no specification for the by-reference impl)."""
+    n = 0
+    for m in list(re.finditer(r'(?m)^\s*for (\w+) in [\w.]+\.iter\(\) \{[ \t]*$', text)):
+        v = m.group(1)
+        text, k = re.subn(r'(?m)^(\s*\w+ \+= )' + re.escape(v) + r';[ \t]*$', r'\1*' + v + ';', text)
+        n += k
+    return text, n
+
+
 def r10_windows2(text):
     """`for W in X.windows(2) {` => `for w__N in 0..(if X.len() >= 2 { X.len() - 1 } else { 0 }) { let W = [X[w__N], X[w__N + 1]];`
     (Verus has no specification of slice::Windows; for Copy elements W[0], W[1] read the same values)."""
@@ -511,7 +574,7 @@ def r7_param_patterns(text):
     return _apply_edits(text, edits), n
 
 
-RULES = [('R0', r0_visibility_and_stats), ('R1', r1_ref_patterns), ('R7', r7_param_patterns), ('R8', r8_assert_eq), ('R9', r9_subslice_copy), ('R10', r10_windows2), ('R11', r11_collect), ('R12', r12_subslice_to_subslice), ('R13', r13_copied_take), ('R15', r15_iter_all_eq), ('R16', r16_map_collect_tail), ('R17', r17_match_arm_ref_guard), ('R18', r18_bool_bitand), ('R20', r20_iter_skip), ('R21', r21_let_map_collect), ('R22', r22_vec_extend), ('R23', r23_range_copy),
+RULES = [('R0', r0_visibility_and_stats), ('R1', r1_ref_patterns), ('R7', r7_param_patterns), ('R8', r8_assert_eq), ('R9', r9_subslice_copy), ('R10', r10_windows2), ('R11', r11_collect), ('R12', r12_subslice_to_subslice), ('R13', r13_copied_take), ('R15', r15_iter_all_eq), ('R16', r16_map_collect_tail), ('R17', r17_match_arm_ref_guard), ('R18', r18_bool_bitand), ('R20', r20_iter_skip), ('R21', r21_let_map_collect), ('R22', r22_vec_extend), ('R23', r23_range_copy), ('R24', r24_opaque_iter), ('R25', r25_iter_sum), ('R26', r26_slice_iters), ('R27', r27_add_assign_ref),
          ('R2', r2_array_literal_loops), ('R3', r3_zip_enumerate)]
 
 
